@@ -63,10 +63,13 @@ def apply_history(d, K, hist, real_names):
         ins = list(m0.get_instructions())[0]
         return ins.get_output().split(', ', 1)[-1], ins.get_raw_string()
     lit0 = const_string()
-    for step, (op, item) in enumerate(hist):
+    for step, h in enumerate(hist):
+        op, item = h[0], h[1]
+        how = h[2] if len(h) > 2 else 'fresh'
         o = objs[K[item]]
         if op == 'rename':
-            new = ('LR%d;' if item.startswith('c:') else 'r%d') % step
+            # a fresh name, or back to the name the item has in the file
+            new = real_names[item] if how == 'orig' else ('LR%d;' if item.startswith('c:') else 'r%d') % step
             o.set_name(new)
             model[item] = new
         else:
@@ -82,44 +85,67 @@ def apply_history(d, K, hist, real_names):
 
 
 def job(jc, spec):
-    hist_len, first = spec
+    hist_len, first = spec[0], spec[1]
+    restricted = len(spec) > 2
     dex = common.dexmod()
     blob, P, L = skeleton()
     hook.ZL.value = int.from_bytes(blob[8:12], 'little')
     K = keys(P)
     mi = L.sections['method_ids']
     ia, ib = P.m_idx[('LA;', 'bar', 'V', ())], P.m_idx[('LB;', 'baz', 'V', ())]
-    NA, NB = fresh_uint('name_idx_A_bar', 32), fresh_uint('name_idx_B_baz', 32)
+    NA, NB, NF = fresh_uint('name_idx_A_bar', 32), fresh_uint('name_idx_B_baz', 32), fresh_uint('name_idx_B_y', 32)
     names_ok = [i for i, s in enumerate(P.s_list) if s.isidentifier()]
     items = list(blob)
     items[mi + 8 * ia + 4: mi + 8 * ia + 8] = le_bytes(NA, 4)
     items[mi + 8 * ib + 4: mi + 8 * ib + 8] = le_bytes(NB, 4)
-    pre = [z3.Or([NA.e == i for i in names_ok]), z3.Or([NB.e == i for i in names_ok])]
+    fi = L.sections['field_ids']
+    iy = P.f_idx[('LB;', 'y', 'I')]
+    items[fi + 8 * iy + 4: fi + 8 * iy + 8] = le_bytes(NF, 4)
+    pre = [z3.Or([NA.e == i for i in names_ok]), z3.Or([NB.e == i for i in names_ok]),
+           z3.Or(NF.e == P.s_idx['y'], NF.e == P.s_idx['x'])]
     eng = jc.new_engine(pre=pre)
     sidx = {'m:A.foo': z3.BitVecVal(P.s_idx['foo'], W), 'm:A.bar': NA.e, 'm:B.baz': NB.e,
-            'f:A.x': z3.BitVecVal(P.s_idx['x'], W), 'f:B.y': z3.BitVecVal(P.s_idx['y'], W),
+            'f:A.x': z3.BitVecVal(P.s_idx['x'], W), 'f:B.y': NF.e,
             'c:A': z3.BitVecVal(P.s_idx['LA;'], W), 'c:B': z3.BitVecVal(P.s_idx['LB;'], W), 'lit': z3.BitVecVal(P.s_idx[LIT], W)}
     label = 'histories of %d steps starting with %s %s' % (hist_len, *OPS[first])
 
+    RENAME_CLS = [i for i, o in enumerate(OPS) if o[0] == 'rename' and o[1].startswith('c:')]
+    RELOADS = [i for i, o in enumerate(OPS) if o[0] == 'reload']
+
     def go():
-        hist = [OPS[first]] + [OPS[engine().choose(len(OPS))] for _ in range(hist_len - 1)]
+        if restricted:       # rename <first>, rename a class, reload an item
+            seq = [first, RENAME_CLS[engine().choose(len(RENAME_CLS))], RELOADS[engine().choose(len(RELOADS))]]
+        else:
+            seq = [first] + [engine().choose(len(OPS)) for _ in range(hist_len - 1)]
+        hist = []
+        for k in seq:
+            op, item = OPS[k]
+            # a rename gives a fresh name, or (once the item has been renamed) the name it has in the file again
+            again = op == 'rename' and any(h[0] == 'rename' and h[1] == item for h in hist)
+            hist.append((op, item, 'orig' if again and engine().choose(2) else 'fresh'))
         d = dex.DEX(SBytes(items))
         objs = find(d)
         real = {it: objs[K[it]].get_name() for it in ITEMS}
         return hist, real, apply_history(d, K, hist, real)
 
     def ext(m, hist=None):
-        return dict(name_idx_A_bar=mval(m, NA), name_idx_B_baz=mval(m, NB), history=[list(h) for h in hist])
+        return dict(name_idx_A_bar=mval(m, NA), name_idx_B_baz=mval(m, NB), name_idx_B_y=mval(m, NF), history=[list(h) for h in hist])
     for pc, (kind, r) in eng.explore(go, keep_pcs=True):
         jc.reached('explored')
         if kind == 'exc':
-            jc.obligation(eng, pc, z3.BoolVal(False), lambda m: ext(m, [OPS[first]]), label=label, what='raised %r' % (r,))
+            jc.obligation(eng, pc, z3.BoolVal(False), lambda m: ext(m, [OPS[first] + ('fresh',)]), label=label, what='raised %r' % (r,))
             continue
         hist, real, bad = r
-        renamed = [it for op, it in hist if op == 'rename']
+        renamed = [h[1] for h in hist if h[0] == 'rename']
         shared = z3.Or([sidx[x] == sidx[y] for x in renamed for y in sidx if y != x] + [z3.BoolVal(False)])
-        jc.obligation(eng, pc, z3.BoolVal(not bad), lambda m, hist=hist: ext(m, hist), {'c17_shared_string_idx': shared},
-                      label=label, what=bad[0] if bad else '')
+        # the recorded finding concerns methods, classes and const-string operands that share the renamed pool string;
+        # fields keep their names on the recorded tree, so a field reporting a wrong name is judged outside the region
+        bad_f = [b for b in bad if ': f:' in b]
+        bad_o = [b for b in bad if ': f:' not in b]
+        jc.obligation(eng, pc, z3.BoolVal(not bad_o), lambda m, hist=hist: ext(m, hist), {'c17_shared_string_idx': shared},
+                      label=label, what=bad_o[0] if bad_o else '')
+        if bad_f:
+            jc.obligation(eng, pc, z3.BoolVal(False), lambda m, hist=hist: ext(m, hist), label=label + ' (field names)', what=bad_f[0])
     eng.partition_guard()
     jc.sample(dict(case=label, paths=eng.st.paths))
 
@@ -130,7 +156,10 @@ def run(ctx):
     L = 3 if ctx.thorough else 2
     ctx.bounds = dict(history_length='<= %d operations, every sequence over %d operations (renames of 3 methods, 1 field, 2 classes; '
                                      'reloads of a method and a field)' % (L, len(OPS)),
-                      sharing='name_idx of LA;->bar and LB;->baz each symbolic over the %d identifier strings of the pool' % 7,
+                      sharing='name_idx of LA;->bar and LB;->baz each symbolic over the %d identifier strings of the pool; name_idx of '
+                              'field LB;->y symbolic over {y, x}' % 7,
+                      new_names='fresh, or (for an item renamed before) the name it has in the file',
+                      quick_extra='3-step histories rename <item>, rename <class>, reload <item>',
                       items=ITEMS + ['const-string operand'])
     ctx.stubs = ['SymStruct / SymIO for the whole DEX parse', 'adler32 stub', 'NullLogger']
     ctx.assumptions = ['dictionary model: an item reports the last name given to it, otherwise its original name']
@@ -140,10 +169,12 @@ def run(ctx):
              dict(a=None, b=None, history=[['rename', 'f:A.x'], ['reload', 'f:B.y']])]
     ctx.diff_unhooked(sys.modules[__name__], cases)
     jobs = [(l, f) for l in range(1, L + 1) for f in range(len(OPS))]
+    if not ctx.thorough:
+        jobs += [(3, f, 'rename-class-reload') for f in range(len(OPS)) if OPS[f][0] == 'rename']
     ctx.pmap(job, jobs)
 
 
-def _concrete(a, b, history):
+def _concrete(a, b, history, fy=None):
     from androguard.core import dex
     blob, P, L = skeleton()
     K = keys(P)
@@ -153,6 +184,10 @@ def _concrete(a, b, history):
         if name is not None:
             idx = name if isinstance(name, int) else P.s_idx[name]
             bb[mi + 8 * P.m_idx[key] + 4: mi + 8 * P.m_idx[key] + 8] = idx.to_bytes(4, 'little')
+    if fy is not None:
+        fi = L.sections['field_ids']
+        iy = P.f_idx[('LB;', 'y', 'I')]
+        bb[fi + 8 * iy + 4: fi + 8 * iy + 8] = int(fy).to_bytes(4, 'little')
     blob2 = dexasm.fix_checksum(bytes(bb))
     if hasattr(dex.zlib, 'calls'):
         dex.zlib.value = int.from_bytes(blob2[8:12], 'little')
@@ -168,7 +203,7 @@ def concrete(c):
 
 def replay(w):
     try:
-        bad = _concrete(w['name_idx_A_bar'], w['name_idx_B_baz'], w['history'])
+        bad = _concrete(w['name_idx_A_bar'], w['name_idx_B_baz'], w['history'], w.get('name_idx_B_y'))
     except Exception as e:
         return True, 'history %r raised %r' % (w['history'], e)
     return bool(bad), 'name indices bar=%d baz=%d, history %s: %s' % (
